@@ -493,6 +493,7 @@ fn parse_hex(s: &str) -> Option<Vec<u8>> {
 
 pub struct Case {
     pub buf: usize,
+    pub full: bool,
     pub data: Vec<u8>,
     pub sched: Sched,
     pub ops: Vec<Op>,
@@ -501,7 +502,10 @@ pub struct Case {
 pub fn parse_case(line: &str) -> Option<Case> {
     let mut parts = line.split(';').map(|p| p.trim());
     let hdr: Vec<&str> = parts.next()?.split_whitespace().collect();
-    if hdr.len() != 3 {
+    // optional 4th header token `full`: print ALL results as raw and `any` as view (out-of-domain twins: the
+    // check only counts model/implementation differences on them)
+    let full = hdr.len() == 4 && hdr[3] == "full";
+    if hdr.len() != 3 && !full {
         return None;
     }
     let buf = parse_dec(hdr[0])? as usize;
@@ -514,7 +518,7 @@ pub fn parse_case(line: &str) -> Option<Case> {
     for p in parts {
         ops.push(parse_op(p)?);
     }
-    Some(Case { buf, data, sched, ops })
+    Some(Case { buf, data, sched, ops, full })
 }
 
 // ---------------------------------------------------------------------------------------------
@@ -574,7 +578,6 @@ fn run_op(reader: &mut Reader, op: &Op) -> String {
 struct Exec {
     results: Vec<String>,
     panicked: bool,
-    first_room: Option<usize>,
 }
 
 fn exec(data: &[u8], sched: &[(Item, u64)], ops: &[Op]) -> Exec {
@@ -595,7 +598,7 @@ fn exec(data: &[u8], sched: &[(Item, u64)], ops: &[Op]) -> Exec {
         }
         dyn_clear();
     }
-    Exec { results, panicked, first_room: src.first_room }
+    Exec { results, panicked }
 }
 
 fn join_results(r: &[String]) -> String {
@@ -807,7 +810,9 @@ fn run_case(line: &str) -> String {
         None => return "I INVALID | V INVALID".to_string(),
     };
     let ex = exec(&case.data, &case.sched, &case.ops);
-    let mut raw = join_results(&ex.results);
+    if case.full {
+        return out2(&join_results(&ex.results), "any");
+    }
     // The independent oracle answers exactly the operations inside the property's domain (valid integer tokens in
     // range, no token / char read when nothing is left) and gives up at the first one outside it. The VIEW is the
     // implementation's results for that in-domain prefix, ` ~` if the script goes on outside the domain (the driver
@@ -837,22 +842,31 @@ fn run_case(line: &str) -> String {
         view.push_str(" !oracle:");
         view.push_str(&join_results(&orc));
     }
-    // The size of the slice handed to the first `read` call is the real BUF_SIZE. It should equal the value extracted
-    // from reader.rs by checks/C08.py (`--buf`), which the generated boundary cases and the model use. It is not an
-    // API observable of the property, so a mismatch is shown in RAW only (correspondence drift, never a counterexample).
-    // The BUF in the case header only parametrises the model (corpus lines may carry another value).
-    if let (Some(room), Some(b)) = (ex.first_room, EXPECTED_BUF.get().copied().flatten()) {
-        if room != b {
-            raw.push_str(&format!(" buf-mismatch:{}", room));
-        }
-    }
+    // RAW = the in-domain prefix as well: results outside the property's domain are compared (and only counted by
+    // `check`) on the `full` twin lines of the out-of-domain stream, never on this line.
+    let raw = { let mut r = join_results(&ex.results[..n_view]); if n_dom < case.ops.len() { r.push_str(" ~"); } r };
     out2(&raw, &view)
 }
 
-static EXPECTED_BUF: std::sync::OnceLock<Option<usize>> = std::sync::OnceLock::new();
+/// The reader's buffer size as seen from outside: the length of the slice offered to the first `read` call
+/// (a probe on a one-byte input). Used when the constant cannot be read from the source text (`--buf auto`), and
+/// reported next to the extracted value otherwise. It only steers where the boundary-targeted inputs are aimed and
+/// which BUF the model runs with; the verdict does not depend on it (the theorems hold for every BUF >= 1).
+pub fn observed_buf() -> usize {
+    let data = [b'1'];
+    let mut src = Source::new(&data, &[]);
+    {
+        let mut reader = Reader::new(Box::new(&mut src));
+        let _ = catch(|| reader.is_eof());
+    }
+    src.first_room.unwrap_or(0)
+}
 
 fn main() {
-    let a = parse_args();
-    let _ = EXPECTED_BUF.set(a.extra.get("buf").and_then(|v| v.parse::<usize>().ok()));
+    if std::env::args().nth(1).as_deref() == Some("probe") {
+        install_quiet_panic_hook();
+        println!("{}", observed_buf());
+        return;
+    }
     cli(gen::gen, run_case);
 }
